@@ -246,11 +246,36 @@ impl AstNode for StakeDelegationCertificate {
 
     fn parse(pair: Pair<Rule>) -> Result<Self, Error> {
         let span = pair.as_span().into();
-        let mut inner = pair.into_inner();
+        let pest_span = pair.as_span();
+
+        let mut pool = None;
+        let mut stake = None;
+
+        for field in pair.into_inner() {
+            let field = crate::ast::RecordConstructorField::parse(field)?;
+
+            match field.name.value.as_str() {
+                "pool" => pool = Some(*field.value),
+                "stake" => stake = Some(*field.value),
+                other => {
+                    return Err(Error::custom(
+                        format!("unknown stake delegation certificate field: {other}"),
+                        pest_span,
+                    ))
+                }
+            }
+        }
+
+        let missing = |name: &str| {
+            Error::custom(
+                format!("missing stake delegation certificate field: {name}"),
+                pest_span,
+            )
+        };
 
         Ok(StakeDelegationCertificate {
-            pool: DataExpr::parse(inner.next().unwrap())?,
-            stake: DataExpr::parse(inner.next().unwrap())?,
+            pool: pool.ok_or_else(|| missing("pool"))?,
+            stake: stake.ok_or_else(|| missing("stake"))?,
             span,
         })
     }
